@@ -56,11 +56,15 @@ type Scenario struct {
 	InvExp    *time.Duration
 	InvExpAbs *time.Time
 	// authorization-irrelevant fields
-	MetaPlain  bool
-	MetaEnc    bool
-	NonceLen   int // 0 = default
-	Cause      bool
-	Iat        int // 0 default(now), 1 absent, 2 past, 3 future
+	MetaPlain bool
+	MetaEnc   bool
+	NonceLen  int // 0 = default
+	Cause     bool
+	Iat       int // 0 default(now), 1 absent, 2 past, 3 future
+	// ArgsMode: how the (same) arguments reach the constructor - 0: one WithArguments; 1: one
+	// WithArgument per key; 2: the same WithArguments twice; 3: WithArgument for the first key,
+	// then WithArguments with all of them (overlapping sources carry equal values)
+	ArgsMode   int
 	Wire       int // 0: constructor tokens + map loader; 1..4: sealed + container (cbor, car, cbor64, car64) reader as loader, invocation decoded from its sealed bytes
 	Deviations []string
 }
@@ -379,7 +383,22 @@ func (s *Scenario) MakeInvocation(b *Built, audience *gen.Principal, r *rand.Ran
 	if err != nil {
 		return nil, fmt.Errorf("args: %w", err)
 	}
-	opts := []invocation.Option{invocation.WithArguments(a)}
+	var opts []invocation.Option
+	switch s.ArgsMode {
+	case 1:
+		for _, i := range order {
+			opts = append(opts, invocation.WithArgument(s.Args.M[i].K, s.Args.M[i].V.Node()))
+		}
+	case 2:
+		opts = append(opts, invocation.WithArguments(a), invocation.WithArguments(a))
+	case 3:
+		if len(order) > 0 {
+			opts = append(opts, invocation.WithArgument(s.Args.M[order[0]].K, s.Args.M[order[0]].V.Node()))
+		}
+		opts = append(opts, invocation.WithArguments(a))
+	default:
+		opts = append(opts, invocation.WithArguments(a))
+	}
 	if audience != nil {
 		opts = append(opts, invocation.WithAudience(audience.DID))
 	}
@@ -470,7 +489,7 @@ func (s *Scenario) Describe() map[string]any {
 	return map[string]any{
 		"invoker": pname(s.Invoker), "subject": pname(s.Subject), "audience": pname(s.Audience), "cmd": s.Cmd,
 		"args": s.Args.String(), "proofs_leaf_to_root": links, "inv_exp": dur(s.InvExp), "wire": s.Wire,
-		"meta_plain": s.MetaPlain, "meta_enc": s.MetaEnc, "nonce_len": s.NonceLen, "cause": s.Cause, "iat": s.Iat,
+		"meta_plain": s.MetaPlain, "meta_enc": s.MetaEnc, "nonce_len": s.NonceLen, "cause": s.Cause, "iat": s.Iat, "args_mode": s.ArgsMode,
 		"deviations": s.Deviations,
 	}
 }
@@ -617,5 +636,6 @@ func FullConformant(r *rand.Rand, n int, poolPct int) *Scenario {
 	s.Cause = r.IntN(4) == 0
 	s.Iat = r.IntN(4)
 	s.Wire = r.IntN(5)
+	s.ArgsMode = r.IntN(4)
 	return s
 }
